@@ -159,11 +159,14 @@ package selector
 //@   loop 0 invariant 0 - 1 <= rangeindex && rangeindex < len(exploreUnion.Members) && fresh(replacementMembers)
 //@   loop 0 invariant (exists i mathint :: 0 <= i && i <= rangeindex && plainclause(exploreUnion.Members[i]) && exploreUnion.Members[i] != nil) ==> len(replacementMembers) >= 1
 //@   loop 0 invariant forall k mathint :: 0 <= k && k < len(replacementMembers) ==> replacementMembers[k] != nil
+// A compiled condition always carries the node it compares with (ParseCondition).
 //@ func (*Condition).Match(n) (r)
+//@   requires c != nil && n != nil && (c.mode == ConditionMode_Link ==> c.match != nil)
 //@   assigns nothing
 
 //@ func (ExploreRecursive).Explore(n, p) (r, err)
 //@   requires n != nil && s.current != nil && (s.limit.mode == RecursionLimit_None || s.limit.mode == RecursionLimit_Depth)
+//@   requires s.stopAt != nil && s.stopAt.mode == ConditionMode_Link ==> s.stopAt.match != nil
 //@   ensures[C07,C10] dyntype(s.current, "ExploreRecursiveEdge") && s.stopAt == nil ==> r == nil && err == nil
 //@   before Explore assert[C07,C10] !dyntype(carg0, "ExploreRecursiveEdge")
 //@   ensures[C07] r != nil && (s.limit.mode == RecursionLimit_None || s.limit.depth >= 2) ==> dyntype(r, "ExploreRecursive") && unbox(r, "ExploreRecursive").sequence == s.sequence && unbox(r, "ExploreRecursive").stopAt == s.stopAt
